@@ -729,7 +729,11 @@ class ExcelInPython:
         method = self.__dict__.get(cell_uid, self.__class__.__dict__.get(cell_uid))
         # Ищем значение значение ячейки среди установленных в ручную через set_cells, если не находим, считаем результат
         # с помощью найденного выше метода, если же не найден и метод, возвращаем "пустую ячейку"
-        return self._arguments.get(cell_uid, method(self) if method else self.EmptyCell())
+        # an overridden cell is a constant: its original formula must not even be evaluated (it may fail)
+        if cell_uid in self._arguments:
+            return self._arguments[cell_uid]
+
+        return method(self) if method else self.EmptyCell()
 
     def exec_function_in(self, cell_uid: str):
         return self._cell_preprocessor(cell_uid)
